@@ -201,7 +201,7 @@ def plan():
                  covers=["upper bound attained exactly (last block stored raw)"], funcs=["serialize.rs::CompressedStreamWriter::{with_block_threshold,serialized_len_upperbound_after,append,flush_block,finish}"],
                  cuts=["zstd = any-length codec model (compress returns any length <= input, or fails)"], bounds={"block_threshold": thr, "items": f"{n} byte-array items of lengths {[a, b, c][:n]} (each <= one block), contents symbolic"},
                  desc="finished stream never longer than the upper bound announced before the last append", mem=14)
-    P["C07"] = [ser_ub(3, 5, 3, 8, 3, ("quick", "thorough")), ser_ub(6, 7, 1, 8, 2, ("quick", "thorough")), ser_ub(8, 8, 8, 8, 3, ("quick", "thorough")), snd_content(0b011, ("quick", "thorough")),
+    P["C07"] = [ser_ub(3, 5, 3, 8, 3, ("quick", "thorough")), ser_ub(6, 7, 1, 8, 2, ("quick", "thorough")), ser_ub(8, 8, 1, 8, 3, ("quick", "thorough")), ser_ub(8, 8, 8, 8, 3, ("thorough",)), snd_content(0b011, ("quick", "thorough")),
                 snd_decision(False, ("quick", "thorough")), ser_ub(1, 1, 1, 8, 3, ("thorough",)), ser_ub(7, 2, 8, 8, 3, ("thorough",)), ser_ub(16, 3, 14, 16, 3, ("thorough",)), ser_ub(5, 12, 16, 16, 3, ("thorough",)),
                 snd_content(0b111, ("thorough",)), snd_content(0b001, ("thorough",)), snd_content(0b101, ("thorough",)), snd_decision(True, ("thorough",)),
                 snd_full(0b000), snd_full(0b001)]
